@@ -1126,7 +1126,12 @@ func (ch *child) runOp(sp *Spec) (restart bool) {
 
 	if cr.accepted {
 		ch.authed++
-		return ch.finishAccepted(sp, cr, p, true)
+		restart := ch.finishAccepted(sp, cr, p, true)
+		ch.rec.prior = append(ch.rec.prior, *sp)
+		if len(ch.rec.prior) > 2 {
+			ch.rec.prior = ch.rec.prior[len(ch.rec.prior)-2:]
+		}
+		return restart
 	}
 
 	// rejected (or nothing sent): state must be what it was
